@@ -1,12 +1,12 @@
 SPECIFICATION Spec
-CONSTANT Frames = {0, 1, 32}
-CONSTANT Bad = {32}
+CONSTANT Frames = {0, 1, 512}
+CONSTANT Bad = {512}
 CONSTANT TicksPerMs = 1
 CONSTANT Mutant = "none"
 CONSTANT Ws = {0, 1, 2, 3}
 CONSTANT Times = {0, 1, 2, 3, 4}
 CONSTANT Receivers = {0}
-CONSTANT AllowClose = TRUE
+CONSTANT AllowClose = FALSE
 CONSTANT MaxLen = 4
 INVARIANT HeapCacheAgree
 INVARIANT Conservation
